@@ -17,6 +17,7 @@ class TimingMonitor(Monitor):
         self.gaps = collections.defaultdict(list)    # link -> [(t_prev, t)] of the largest few
         self.last_accept = {}    # conn name -> virtual t of last accepted datagram
         self.first_accept = {}
+        self.temp_first = {}     # addr -> virtual time its hello was accepted (entered the temp pool)
         self.temp_seen = {}      # addr -> [first tick seen in the temp pool, last tick seen]
         self.temp_gone = {}      # addr -> first tick it was no longer in the temp pool
         world.net.taps.append(self.tap)
@@ -36,6 +37,8 @@ class TimingMonitor(Monitor):
             cn = self.w.conn_name(conn)
             self.last_accept[cn] = self.w.k.now
             self.first_accept.setdefault(cn, self.w.k.now)
+            if conn.isServer and tuple(conn.addr) in self.w.ctxt.temp_connections:
+                self.temp_first.setdefault(tuple(conn.addr), self.w.k.now)
 
     def on_tick(self):
         # presence of half-open (temp) connections per tick
@@ -68,7 +71,7 @@ class C12(UdpCheck):
         dt = rng.choice([d for d in (1 / 240, 1 / 120, 1 / 60, 1 / 60, 1 / 30, 1 / 15) if d <= max(interval, 1 / 60) + 1e-12])
         lat = rng.choice([0.0, 0.001, 0.01, 0.05, 0.2])
         jit = rng.choice([0.0, 0.0, 0.005, 0.05])
-        scen = ["idle", "outage", "cut", "cut", "unanswered", "setters", "setters", "ctx", "idle", "outage", "neighbour-error"][i % 11]
+        scen = ["idle", "outage", "cut", "cut", "unanswered", "setters", "setters", "ctx", "idle", "outage", "neighbour-error", "ctx-idle"][i % 12]
         if tier == "quick" and i in (0, 1):
             scen = "idle-long"
         elif tier == "thorough" and i % 400 == 0:
@@ -117,6 +120,18 @@ class C12(UdpCheck):
             cfg["phases"].append({"t0": 2.98, "t1": 3.0 + 3 * max(interval, 1 / 60) + 0.03, "src": "S", "dst": "c1", "cut": True})
             cfg["ctx"] = {"temp_timeout": ttemp, "msg_timeout": smsg}
             cfg["duration"] = 8.0
+        elif scen == "ctx-idle":
+            # like ctx, but the half-open handshake is the ONLY thing the server knows about: no connected client keeps
+            # the loop ticking. The configured handshake timeout must take effect all the same. The probe observes the
+            # pool through a harmless keep-alive-sized datagram from an unknown address long after the timeout.
+            ttemp = rng.choice([0.5, 1.0, 2.5])
+            cfg["server"]["temp_timeout"] = ttemp
+            cfg["latency"] = min(max(cfg["latency"], 0.02), 0.05)
+            cfg["jitter"] = 0.0
+            plan = [{"op": "connect", "c": 0, "t": 0.5, "cb": True, "pre": [["conn_timeout", 8.0]]}]
+            cfg["phases"].append({"t0": 0.5 + 2.2 * dt, "t1": 10 ** 9, "src": "c0", "dst": "S", "cut": True})
+            cfg["ctx"] = {"temp_timeout": ttemp}
+            cfg["duration"] = 0.5 + ttemp + 6.0
         elif scen == "neighbour-error":
             # two idle clients; for a while the kernel refuses every datagram the server sends towards the FIRST one
             # (ENOBUFS / unreachable). The second client's network is fine: its connection must stay up.
@@ -263,6 +278,21 @@ class C12(UdpCheck):
                                       "keep_alive": eff_c_keep if who == "client" else s_keep}})
             return worst
 
+        if scen == "ctx-idle":
+            from world.udpworld import client_addr as _ca
+            a0 = _ca(0)
+            seen = mon.temp_first.get(a0)
+            if seen is None:
+                w.vacuous = True
+                return vs
+            w.reached = True
+            Tt = cfg["ctx"]["temp_timeout"]
+            still = a0 in w.ctxt.temp_connections
+            if still and w.k.now - seen > Tt + 3.0:
+                vs.append({"kind": "half_open_connection_never_removed", "key": "idle-server",
+                           "detail": {"temp_timeout": Tt, "in_pool_since": round(seen, 3), "end": round(w.k.now, 3),
+                                      "connected_clients": len(w.ctxt.connections)}})
+            return vs
         if scen == "ctx":
             from world.udpworld import client_addr as _ca
             w.reached = True
